@@ -87,11 +87,12 @@ def run(tier):
         if "bad-input" in cl:
             raise MachineryError(f"harness handed over an unsound witness layer: {r}")
         if bad:
-            ck.violation(f"layer {r['n']} {r['P']} {r['g']}", f"find_local_clifford_layer(n={r['n']}, P={r['P']}, graph {r['g']}) -> {r['res']} {r['blocks'] or r['exc']} fails {sorted(bad)}",
-                         {"job": [r["n"], r["P"], r["g"], r["witness"]], "clauses": sorted(bad)})
+            ck.violation(f"layer {r['n']} {r['P']} {r['g']}", f"find_local_clifford_layer(n={r['n']}, P={r['P']} as {r['dtype']} matrices, graph {r['g']}) -> {r['res']} {r['blocks'] or r['exc']} fails {sorted(bad)}",
+                         {"job": [r["n"], r["P"], r["g"], r["witness"], r["dtype"]], "clauses": sorted(bad)})
         else:
             ck.accepted()
     ck.cov["results"] = kinds
+    ck.cov["array_types"] = {d: sum(1 for r in recs if r["dtype"] == d) for d in sorted({r["dtype"] for r in recs})}
     if kinds["layer"] == 0 or (kinds["none"] + kinds["raise"]) == 0:
         raise MachineryError(f"vacuity: results {kinds}")
     ck.sample([r for r in recs if r["res"] == "layer"][5])
